@@ -10,14 +10,14 @@ import time
 import common
 import tlc
 
-SERVES = ["C02", "C03", "C04", "C05", "C06", "C08", "C09", "C14"]
+SERVES = ["C02", "C03", "C04", "C05", "C06", "C08", "C09", "C14"]   # contributes to C10 and C17
 
 # model-checking runs: name -> (constants, invariants, properties, expect_violation_of)
 ALLRES = '{"thread", "async", "main"}'
 
 
 def model_runs(tier):
-    inv_all = ["TypeOK", "P02", "P03", "P04", "P05", "P06", "P08", "P08still", "NoSpin", "NoStuck", "P14"]
+    inv_all = ["TypeOK", "P02", "P03", "P04", "P05", "P06", "P08", "P08still", "NoSpin", "NoStuck", "P14", "P17"]
     runs = []
     if tier == "quick":
         runs.append(("safety-N3", dict(N=3, MCS="{1, 2}", RES=ALLRES, PRS="{0}", SEQS="{TRUE, FALSE}",
@@ -299,12 +299,12 @@ def run(tier, seed, log=common.say):
 
 
 CLAUSE_PROP = {"C02": "C02", "C03": "C03", "C04": "C04", "C05": "C05", "C06": "C06", "C08": "C08",
-               "C09": "C09", "C14": "C14", "C10": "C10"}
+               "C09": "C09", "C14": "C14", "C10": "C10", "C17": "C17"}
 MODEL_INV = {"C02": ["P02"], "C03": ["P03", "P03once"], "C04": ["P04"], "C05": ["P05"], "C06": ["P06"],
              "C08": ["P08", "P08still"], "C09": ["NoSpin", "NoStuck", "P09"], "C14": ["P14", "P14after"],
-             "C10": ["P03"]}
+             "C10": ["P03"], "C17": ["P17"]}
 NONTRIVIAL = {"C02": "depdisp", "C03": "returned", "C04": "mcfull", "C05": "seqdefer", "C06": "strict",
-              "C08": "blockready", "C09": "disp", "C14": "failinflight", "C10": "skips"}
+              "C08": "blockready", "C09": "disp", "C14": "failinflight", "C10": "skips", "C17": "async"}
 RULES = {
     "C02": "traces in which a node with at least one dependency was dispatched (order and received values checked at its dispatch, entry and exit)",
     "C03": "traces of executions that returned normally (completeness, no double / extra / deactivated entry checked)",
@@ -315,6 +315,7 @@ RULES = {
     "C09": "traces of executions that dispatched at least one node and ended (return or raise) under the controller",
     "C14": "traces in which a node failed while other nodes were in flight",
     "C10": "traces in which a node was deactivated at run time",
+    "C17": "traces in which an async-thread node was dispatched (it must be awaited through the event loop, never through a blocking wait)",
 }
 
 
